@@ -914,4 +914,54 @@ theorem pushDecoded_size (d : Dec ε σ) (es : List ε) (a : Acc ε σ) (hm : a.
     · have := ih a3 (by rw [m3.1, hm]) h
       omega
 
+/-! ## `position` -/
+
+/-- with no time-out a poll that returns `Ok` returns an event -/
+theorem poll_none_some (d : Dec ε σ) (st : St ε σ) (env : PollEnv) : (poll d st none env).res ≠ .ok none := by
+  intro h
+  obtain ⟨-, -, -, -, -, hres⟩ := poll_fields d st none env
+  rw [h] at hres
+  obtain ⟨hx, he, -⟩ := hres
+  -- the loop left with `ok` although the queue is empty: impossible without a deadline
+  have key : ∀ (its : List Iter) (first : Bool) (a : Acc ε σ),
+      (loop d none its first a).exit = .ok → goOn (loop d none its first a).acc.st = false := by
+    intro its
+    induction its with
+    | nil =>
+      intro first a h
+      unfold loop at h ⊢
+      split at h
+      · cases h
+      · rename_i hg; simp only [hg]; simpa using hg
+    | cons it rest ih =>
+      intro first a h
+      unfold loop at h ⊢
+      split
+      · rename_i hg
+        simp only [hg, ↓reduceIte] at h
+        have hnb : ∀ a', step d none it first a ≠ .stop a' .ok := by
+          intro a'
+          unfold step
+          simp only [delayOf]
+          generalize it.sel = sel
+          cases sel with
+          | retry => simp
+          | fail => simp
+          | ready wk sg tr tw =>
+            dsimp only
+            generalize body d _ it wk sg tr _ = rb
+            obtain ⟨a1, o⟩ := rb
+            cases o <;> simp
+        generalize hst : step d none it first a = sr at h hnb ⊢
+        cases sr with
+        | next f a' => exact ih f a' h
+        | stop a' ex =>
+          simp only at h
+          subst h
+          exact absurd rfl (hnb a')
+      · rename_i hg; simpa using hg
+  have := key env.its true ⟨{ st with wq := st.wq.flush }, [], []⟩ hx
+  simp only [Option.map_none] at he
+  simp [goOn, he] at this
+
 end SurfProofs.PollLoopLemmas
